@@ -179,7 +179,7 @@ M = [
   "            self.bytes.try_reserve(size)?;\n            let handle = tracker.alloc::<u8>(size)?;\n            self.handle = Some(handle);"),
  ("c13_try_reserve_result_dropped", "C13", "result-discarded:try_reserve", "crates/jxl-frame/src/lib.rs",
   "            self.bytes.try_reserve(additional)?;", "            let _ = self.bytes.try_reserve(additional);"),
- ("c10_header_size_unchecked", "C10", "header-size-checked_sub", "crates/jxl-bitstream/src/container/box_header.rs",
+ ("c10_header_size_unchecked", "C10", "parse|size-rules", "crates/jxl-bitstream/src/container/box_header.rs",
   "                let xlbox = xlbox.checked_sub(16).ok_or(Error::InvalidBox)?;", "                let xlbox = xlbox.wrapping_sub(16);"),
  ("c03_palette_delta_le", "C03", "predict-iff-index-below-nb_deltas", "crates/jxl-modular/src/transform/palette.rs",
   "                if index < nb_deltas {\n                    need_delta.push", "                if index <= nb_deltas {\n                    need_delta.push"),
